@@ -1128,6 +1128,7 @@ META = {
              "model is compared exactly with the real MPO.expect on Gaussian-integer chains. The accumulation loop of "
              "MPS._from_state_amplitudes represents the dictionary (C11_from_amplitudes_spec: amplitude at b = sum of the entries whose "
              "string is b, every n >= 2, every d) and is compared factor by factor with the real constructor (truncation/normalisation rebound). "
+             "Composition: MPS.inner(psi, MPO.apply_to(psi)) with any factorising QR oracle equals MPO.expect(psi) (C11_inner_apply_is_expect). "
              "Validated only (dense linear algebra, stated tolerances): truncation after + / apply_to / @, norm, overlap, "
              "expect, expect_batch, get_correlation_matrix, apply, entanglement_entropy, from_state_amplitudes, "
              "from_operator_repr, and operand invariance of every non-in-place operation. Not proved: from_operator_repr_spec; that torch's QR factorises (oracle premise)."),
